@@ -73,6 +73,8 @@ NFILES = {"one_file_unnamed": 1, "three_named": 3, "five_unsorted": 5, "nine_fil
 ATOMS = {
     "a>2": lambda d: d.a > 2, "a<=4": lambda d: d.a <= 4, "a==3": lambda d: d.a == 3, "b>1.5": lambda d: d.b > 1.5, "b!=2.0": lambda d: d.b != 2.0,
     "s==x": lambda d: d.s == "x", "rid<20": lambda d: d.rid < 20, "t>d10": lambda d: d.t > pd.Timestamp("2001-01-11"), "b<=3": lambda d: d.b <= 3,
+    # atoms the reader cannot absorb: the residual filter must stay in the plan
+    "a<rid": lambda d: d.a < d.rid, "s.isin": lambda d: d.s.isin(["x", "zz"]), "b.isna": lambda d: d.b.isna(), "~a>2": lambda d: ~(d.a > 2), "a+1>4": lambda d: (d.a + 1) > 4,
 }
 SHAPES = ["A", "A&B", "A|B", "(A|B)&C", "(A&B)|C", "A&B&C", "A|B|C", "(A&B)|(A&C)"]
 
@@ -223,7 +225,8 @@ def run_case(case):
                     kw2["filters"] = [("rid", ">=", 5)]
                     base = full[full.rid >= 5]
                 rr = dx.read_parquet(path, **kw2)
-                if proj is not None and order_pf and isinstance(proj, list) and set(c for a_ in combo for c in [a_.split(">")[0].split("<")[0].split("=")[0].split("!")[0]]) <= set(proj):
+                simple = all(a_ in ("a>2", "a<=4", "a==3", "b>1.5", "b!=2.0", "s==x", "rid<20", "t>d10", "b<=3") for a_ in combo)
+                if proj is not None and order_pf and isinstance(proj, list) and simple and set(c for a_ in combo for c in [a_.split(">")[0].split("<")[0].split("=")[0].split("!")[0]]) <= set(proj):
                     q = rr[proj]
                     q = q[eval_pred(sh, combo, q)]
                     exp = base[proj]
@@ -260,7 +263,10 @@ def run_case(case):
                     flt = rn[0].operand("filters") or []
                     tuples = [t for conj in flt for t in (conj if isinstance(conj, (list, tuple)) and conj and isinstance(conj[0], (list, tuple)) else [conj])]
                     ne_cols = sorted({t[0] for t in tuples if t[1] == "!="})
-                    if hasattr(exp, "columns") and "rid" in exp.columns and hasattr(got, "columns") and "rid" in got.columns:
+                    if isinstance(exp, pd.Series) and exp.name == "rid" and isinstance(got, pd.Series):
+                        missing = sorted(set(exp.tolist()) - set(got.tolist()))
+                        srcf = full.set_index("rid")
+                    elif hasattr(exp, "columns") and "rid" in exp.columns and hasattr(got, "columns") and "rid" in got.columns:
                         missing = sorted(set(exp["rid"].tolist()) - set(got["rid"].tolist()))
                         srcf = full.set_index("rid")
                     else:
@@ -317,6 +323,17 @@ def run_case(case):
         except Exception as ex:
             bump("overwrite_refusals_checked")
             sets.setdefault("overwrite_refusal_kinds", []).append(type(ex).__name__)
+        if viol is None:
+            # ... also when the query reads only a part of the dataset that is overwritten (one file of it)
+            try:
+                one = sorted(f for f in os.listdir(path) if f.endswith(".parquet"))[0]
+                dx.read_parquet(os.path.join(path, one), **kw).assign(zz=1).to_parquet(path, overwrite=True)
+                viol = {"oracle": "overwrite_guard", "symptom": "overwrite-of-dataset-being-read-not-refused", "detail": "query reads one file of the dataset"}
+            except ValueError:
+                bump("overwrite_refusals_checked")
+            except Exception as ex:
+                bump("overwrite_refusals_checked")
+                sets.setdefault("overwrite_refusal_kinds", []).append(type(ex).__name__)
         if viol is None:
             after = dx.read_parquet(path, **kw).compute(scheduler="sync")
             d = compare(after, full, order=True, index=True, dtypes=False)
